@@ -333,6 +333,19 @@ def r_gatekeeper(ck: Checker) -> None:
         if isinstance(v, ast.Constant) and v.value is True:
             continue
         if isinstance(v, ast.Constant) and v.value is False:
+            # ... unless a search loop over all arguments ran first (the loop spelling of any(...))
+            searched = False
+            for st_ in lf.stmts:
+                if isinstance(st_, ast.For) and norm(st_.iter) == f"get_args({tp})" and isinstance(st_.target, ast.Name) and not st_.orelse \
+                        and len(st_.body) == 1 and isinstance(st_.body[0], ast.If) and not st_.body[0].orelse \
+                        and norm(st_.body[0].test) == f"has_check_type_in_type({st_.target.id}, check_type)" \
+                        and len(st_.body[0].body) == 1 and isinstance(st_.body[0].body[0], ast.Return) and norm(st_.body[0].body[0].value) == "True":
+                    searched = True
+            if searched:
+                n_rec += 1
+                continue
+            if any(isinstance(st_, (ast.For, ast.While)) for st_ in lf.stmts):
+                raise Unsupported("has_check_type_in_type: loop before `return False` not recognised as the search over all arguments", f.node)
             bad = f"returns False when {lf.assign} without looking at get_args({tp})"
             continue
         from ..astutil import alpha
